@@ -52,6 +52,9 @@ const (
 
 var kindName = [...]string{"att", "pk", "pro", "agg", "con"}
 
+// fillerSlot: first (odd) slot of the never-queried duties of an expiry burst.
+const fillerSlot = 1001
+
 // Slots: every duty type has an even slot that never expires during a run and an odd slot that
 // expires (when the run enables expiry).
 var baseSlot = [...]uint64{kAtt: 10, kPK: 10, kPro: 20, kAgg: 30, kCon: 40}
@@ -332,6 +335,9 @@ func (st *runState) deadlineOf(slot uint64) (time.Duration, bool) {
 	if !st.expEnabled || slot%2 == 0 {
 		return 0, false
 	}
+	if slot >= fillerSlot { // expiry burst: all fillers expire right after expBase
+		return st.expBase + time.Duration(slot-fillerSlot)*20*time.Microsecond, true
+	}
 	return st.expBase + time.Duration(slot/10)*2*time.Millisecond + 500*time.Microsecond, true
 }
 
@@ -377,6 +383,22 @@ func body(c *kernel.Ctx) {
 		return start.Add(time.Hour), true
 	})
 	db := dutydb.NewMemDB(dl)
+
+	// Expiry burst (a quarter of the runs with expiry): more duties than the deadliner's output buffer
+	// holds (10) are stored up front and expire together while no Store drains the buffer, as after a
+	// beacon node outage. They are never queried; whatever the store does about them, the clients'
+	// operations below must behave as without them.
+	if st.expEnabled && verifrt.Intn("cfg", 4) == 0 {
+		nFill := 11 + verifrt.Intn("cfg", 4)
+		for i := 0; i < nFill; i++ {
+			slot := uint64(fillerSlot + 2*i)
+			if err := db.Store(ctx, core.NewProposerDuty(slot), core.UnsignedDataSet{simdata.PubKey(0): proposal(slot, 1)}); err != nil {
+				c.Violate(prop, "unexpected-error", "pro:filler-store-error", "storing filler proposal %d at t=0: %v", slot, err)
+			}
+		}
+		verifrt.Probe("expiry_burst")
+		c.Set("expiry_burst", nFill)
+	}
 
 	pickSlot := func(kind kkind) uint64 {
 		s := baseSlot[kind]
